@@ -74,7 +74,9 @@ def k1_instants(thread_evs: List[Ev]) -> set:
     return zero & closes & opens
 
 
-def well_formed(evs: List[Ev], raw_events: List[dict]) -> Optional[str]:
+def well_formed(evs: List[Ev], raw_events: List[dict], rounded_away_device_ok: bool = False) -> Optional[str]:
+    """rounded_away_device_ok: a device record shorter than 1us whose inward rounding gives end < ts is accepted (link structure
+    does not depend on its extent)."""
     if not evs:
         return "no complete event"
     e0 = raw_events[0] if raw_events else None
@@ -91,7 +93,7 @@ def well_formed(evs: List[Ev], raw_events: List[dict]) -> Optional[str]:
             seen[k] = e.id
         if e.cat in DEVICE_CATS and e.stream <= 0:
             return f"device activity {e.id} on non-positive stream {e.stream}"
-        if e.dur < 0:
+        if e.dur < 0 and not (rounded_away_device_ok and e.cat in DEVICE_CATS and e.dur == -1):
             return f"negative duration on event {e.id}"
     for key, th in host_threads(evs).items():
         msg = laminar(th)
